@@ -72,37 +72,47 @@ pub(crate) fn remove_handle_recursive(
     state: &mut HashMap<String, StateValue>,
     key: String,
 ) -> bool {
-    match remove_handle(state, key.to_string()) {
-        Some(state_value) => match state_value {
-            StateValue::List(list) => {
-                for value in list {
-                    if let StateValue::String(value) = value {
-                        remove_handle_recursive(state, value);
-                    };
-                }
+    // nested collections are walked with a work list: the nesting depth is data, not a bound on the native stack
+    let mut found_root = None;
+    let mut pending = vec![key];
+
+    while let Some(next_key) = pending.pop() {
+        let found = match remove_handle(state, next_key) {
+            Some(state_value) => {
+                match state_value {
+                    StateValue::List(list) => {
+                        for value in list {
+                            if let StateValue::String(value) = value {
+                                pending.push(value);
+                            };
+                        }
+                    }
+                    StateValue::Set(set) => {
+                        for value in set {
+                            pending.push(value);
+                        }
+                    }
+                    StateValue::SubState(map) => {
+                        for (_, map_value) in map {
+                            if let StateValue::String(value) = map_value {
+                                pending.push(value);
+                            };
+                        }
+                    }
+                    _ => (),
+                };
 
                 true
             }
-            StateValue::Set(set) => {
-                for value in set {
-                    remove_handle_recursive(state, value);
-                }
+            None => false,
+        };
 
-                true
-            }
-            StateValue::SubState(map) => {
-                for (_, map_value) in map {
-                    if let StateValue::String(value) = map_value {
-                        remove_handle_recursive(state, value);
-                    };
-                }
-
-                true
-            }
-            _ => true,
-        },
-        None => false,
+        if found_root.is_none() {
+            found_root = Some(found);
+        }
     }
+
+    found_root.unwrap_or(false)
 }
 
 pub(crate) fn return_handle(
